@@ -10,9 +10,9 @@ NAMES = ["a", "b", "c", "d", "e", "x", "z", "a.b", "a b", "B", "Z", "_", "0", "1
          "f.bin", "F.BIN", "data", "data.0", "data0", "ÿ", "Ā", "\U0001F600", "�",
          "cafe\u0301.txt", "caf\u00e9.txt", "A\u030a", "\u00c5",
          ".hidden", ".pad-notes.txt", "-dash", "info", "m", "new", "check", "@at", "a.torrent",
-         "1", "16383", "16384"]
+         "1", "16383", "16384", "AC\\DC.bin", "tail\\", "a:b", "3:abc", "i1e", "d1:ae"]
 DIRS = ["d", "d.d", "dir", "D", "a", "a.b", "sub", "ü", "0", "z z", "𝄞d", "u\u0308", "cover",
-        ".padlock", ".git", "-x", "edit", ".pad", ".pad"]
+        ".padlock", ".git", "-x", "edit", ".pad", ".pad", "win\\dir", "le", "4:spam"]
 
 
 def size_classes(B, pl):
